@@ -192,4 +192,7 @@ PROPS["C16"] = {
     "replay_hint": "python -c 'from code_data._cli import main; main()' <data.args> in a directory holding the program file",
 }
 
-NOT_CLAIMED = {}
+NOT_CLAIMED = {
+    "C03": "check built (oracle on hand-built block graphs, full correspondence, premise monitor) and components proved (relaxation terminates and is consistent, tables sound, line tables read back by CPython's readers); the composed encoder-correctness theorem (K2) is not finished, so the property is not claimed at proof level yet",
+    "C05": "check built (dis-view equivalence, executed programs, full correspondence); its theorem is K2 composed with normalize and K1 and is not finished, so the property is not claimed at proof level yet",
+}
